@@ -398,7 +398,7 @@ def rule_sel_axis(repo, tier):
                                 construct='axis ' + found[0]))
     # the kernel is applied PER RESIDUAL ROW: its argument is the squared norm over the last axis itself, and the sum over rows is taken of the kernel's
     # output - rho(sum_i |r_i|^2) is another function than sum_i rho(|r_i|^2) for every non-linear kernel
-    f = repo.func(OPT, 'RobustModel.loss')
+    f = __import__('sa.core', fromlist=['x']).ifstmt_view(repo.func(OPT, 'RobustModel.loss'))
     for c in ast.walk(f.node):
         if isinstance(c, (ast.ListComp, ast.GeneratorExp)):
             for a in ast.walk(c.elt):
